@@ -436,7 +436,29 @@ func rcAsFile(w *World) {
 		if !ok {
 			return false
 		}
-		return isFunc(callee(info, c), "golang.org/x/sync/semaphore", "Weighted", "Release") && selField(info, recvExpr(c)) == sem
+		if isFunc(callee(info, c), "golang.org/x/sync/semaphore", "Weighted", "Release") && selField(info, recvExpr(c)) == sem {
+			return true
+		}
+		// a release wrapper: a function of the package that releases executor.s and never acquires
+		// it (its shape — release iff the permit is held — is RE's obligation)
+		if f := callee(info, c); f != nil {
+			if d := w.decls[f.Origin()]; d != nil && d.Body != nil && f.Pkg() != nil && f.Pkg().Path() == modPath {
+				rel, acq := false, false
+				ast.Inspect(d.Body, func(y ast.Node) bool {
+					if cc, ok := y.(*ast.CallExpr); ok && selField(info, recvExpr(cc)) == sem {
+						if isFunc(callee(info, cc), "golang.org/x/sync/semaphore", "Weighted", "Release") {
+							rel = true
+						}
+						if isFunc(callee(info, cc), "golang.org/x/sync/semaphore", "Weighted", "Acquire") {
+							acq = true
+						}
+					}
+					return true
+				})
+				return rel && !acq
+			}
+		}
+		return false
 	}
 	nb, bad := mustPrecede(info, body, isRelease, isReadyRecv)
 	w.floor("waits on result.ready in task.asFile", nb, 2)
@@ -950,15 +972,195 @@ func reCompiler(w *World) {
 		c, ok := x.(*ast.CallExpr)
 		return ok && isFunc(callee(info, c), "golang.org/x/sync/semaphore", "Weighted", name) && selField(info, recvExpr(c)) == sem
 	}
-	// inventory: Release/Acquire on executor.s only in the three functions
-	allowed := map[*types.Func]bool{asFile.Obj: true, do.Obj: true, rel.Obj: true}
+	// wrappers: methods other than doCompile/asFile that touch executor.s directly. A release
+	// wrapper must have the idempotent shape `if !t.released { Release; t.released = true }`
+	// (afterwards: permit not held, flag true). An acquire wrapper is summarised: the value it
+	// leaves in the flag when the Acquire succeeded and when it failed.
+	type acqSummary struct{ succ, fail string } // "true" | "false" | "same" | "?"
+	relWrappers := map[*types.Func]bool{}
+	acqWrappers := map[*types.Func]acqSummary{}
+	idempotentRelease := func(decl *ast.FuncDecl) bool {
+		if len(decl.Body.List) != 1 {
+			return false
+		}
+		ifs, ok := decl.Body.List[0].(*ast.IfStmt)
+		if !ok || ifs.Else != nil {
+			return false
+		}
+		ue, ok := ifs.Cond.(*ast.UnaryExpr)
+		if !ok || ue.Op != token.NOT || selField(info, ue.X) != released {
+			return false
+		}
+		hasRel, hasSet := false, false
+		for _, st := range ifs.Body.List {
+			ast.Inspect(st, func(y ast.Node) bool {
+				if semCall(y, "Release") {
+					hasRel = true
+				}
+				return true
+			})
+			if as, ok := st.(*ast.AssignStmt); ok && len(as.Lhs) == 1 && selField(info, as.Lhs[0]) == released && render(as.Rhs[0]) == "true" {
+				hasSet = true
+			}
+		}
+		return hasRel && hasSet
+	}
+	flagTransfer := func(n ast.Node, out Facts) (Facts, bool) {
+		if as, ok := n.(*ast.AssignStmt); ok && len(as.Lhs) == 1 && len(as.Rhs) == 1 && selField(info, as.Lhs[0]) == released {
+			switch render(as.Rhs[0]) {
+			case "true":
+				return out.without("flag=false").with("flag=true"), true
+			case "false":
+				return out.without("flag=true").with("flag=false"), true
+			default:
+				return out.without("flag=true").without("flag=false").with("flag=?"), true
+			}
+		}
+		return out, false
+	}
 	nAcq, nRel := 0, 0
 	for _, b := range allFuncBodies(p) {
 		if b.Lit != nil {
 			continue
 		}
+		hasA, hasR := false, false
+		var firstPos token.Pos
 		ast.Inspect(b.Body, func(x ast.Node) bool {
-			isA, isR := semCall(x, "Acquire"), semCall(x, "Release")
+			if semCall(x, "Acquire") {
+				hasA = true
+				if firstPos == token.NoPos {
+					firstPos = x.Pos()
+				}
+			}
+			if semCall(x, "Release") {
+				hasR = true
+				if firstPos == token.NoPos {
+					firstPos = x.Pos()
+				}
+			}
+			return true
+		})
+		if !hasA && !hasR {
+			continue
+		}
+		if b.Obj == asFile.Obj || b.Obj == do.Obj {
+			ast.Inspect(b.Body, func(x ast.Node) bool {
+				if semCall(x, "Acquire") {
+					nAcq++
+				}
+				if semCall(x, "Release") {
+					nRel++
+				}
+				return true
+			})
+			continue
+		}
+		switch {
+		case hasR && !hasA:
+			if idempotentRelease(b.Decl) {
+				relWrappers[b.Obj] = true
+				w.ok("release-idempotent|"+b.Label, b.Decl.Pos(), b.Label+" releases iff !released and then records released = true")
+			} else {
+				w.violation("release-idempotent|"+b.Label, b.Decl.Pos(), b.Label+" releases executor.s but is not of the form `if !t.released { Release(1); t.released = true }`: double release panics, missing release leaks a permit")
+			}
+		case hasA && !hasR:
+			// summary by dataflow over the wrapper body
+			g := buildCFG(info, b.Body)
+			d := &Dataflow{G: g, Must: true, Init: Facts{}}
+			d.Transfer = func(n ast.Node, in Facts) Facts {
+				out, done := flagTransfer(n, in)
+				if done {
+					return out
+				}
+				if as, ok := n.(*ast.AssignStmt); ok && len(as.Lhs) == 1 && len(as.Rhs) == 1 {
+					if c, ok := ast.Unparen(as.Rhs[0]).(*ast.CallExpr); ok && semCall(c, "Acquire") {
+						return out.with("acq:" + render(as.Lhs[0]))
+					}
+				}
+				return out
+			}
+			d.Branch = func(leaf ast.Expr, truth bool, st Facts) Facts {
+				if be, ok := leaf.(*ast.BinaryExpr); ok && isNilIdent(info, be.Y) && st["acq:"+render(be.X)] {
+					st = st.without("acq:" + render(be.X))
+					if (be.Op == token.NEQ && !truth) || (be.Op == token.EQL && truth) {
+						return st.with("held")
+					}
+					return st.with("failed")
+				}
+				return st
+			}
+			d.Run()
+			flagOf := func(st Facts) string {
+				switch {
+				case st["flag=true"]:
+					return "true"
+				case st["flag=false"]:
+					return "false"
+				case st["flag=?"]:
+					return "?"
+				}
+				return "same"
+			}
+			merge := func(old, nw string) string {
+				if old == "" || old == nw {
+					return nw
+				}
+				return "?"
+			}
+			sum := acqSummary{}
+			okShape := true
+			for _, e := range d.Exits(info, b.Body.End()) {
+				fl := flagOf(e.State)
+				r, isRet := e.Last.(*ast.ReturnStmt)
+				switch {
+				case isRet && len(r.Results) == 1 && semCall(ast.Unparen(r.Results[0]), "Acquire"):
+					sum.succ, sum.fail = merge(sum.succ, fl), merge(sum.fail, fl)
+				case e.State["held"]:
+					sum.succ = merge(sum.succ, fl)
+				case e.State["failed"]:
+					sum.fail = merge(sum.fail, fl)
+				default:
+					okShape = false
+				}
+			}
+			if !okShape || sum.succ == "" {
+				w.undecided("sem-wrapper|"+b.Label, b.Decl.Pos(), b.Label+" acquires executor.s on some paths only; the permit protocol cannot be summarised")
+			} else {
+				acqWrappers[b.Obj] = sum
+				w.ok("sem-wrapper|"+b.Label, b.Decl.Pos(), fmt.Sprintf("%s acquires the permit; released flag afterwards: %s on success, %s on failure", b.Label, sum.succ, sum.fail))
+			}
+		default:
+			w.violation("sem-site|"+b.Label, firstPos, "executor.s is both acquired and released in "+b.Label+", outside doCompile/asFile: the permit protocol is decided for those two functions and for pure acquire/release wrappers only")
+		}
+	}
+	isAcqWrapperCall := func(x ast.Node) (*types.Func, bool) {
+		c, ok := x.(*ast.CallExpr)
+		if !ok {
+			return nil, false
+		}
+		f := callee(info, c)
+		if f == nil {
+			return nil, false
+		}
+		_, is := acqWrappers[f]
+		return f, is
+	}
+	isRelWrapperCall := func(x ast.Node) bool {
+		c, ok := x.(*ast.CallExpr)
+		if !ok {
+			return false
+		}
+		f := callee(info, c)
+		return f != nil && relWrappers[f]
+	}
+	// wrapper calls count as sites; they may only be made from doCompile/asFile
+	for _, b := range allFuncBodies(p) {
+		if b.Lit != nil {
+			continue
+		}
+		ast.Inspect(b.Body, func(x ast.Node) bool {
+			_, isA := isAcqWrapperCall(x)
+			isR := isRelWrapperCall(x)
 			if !isA && !isR {
 				return true
 			}
@@ -967,53 +1169,35 @@ func reCompiler(w *World) {
 			} else {
 				nRel++
 			}
-			if !allowed[b.Obj] {
-				w.violation("sem-site|"+b.Label, x.Pos(), "executor.s acquired/released outside doCompile/asFile/(*task).release: the permit protocol is decided for those three functions only")
+			if b.Obj != asFile.Obj && b.Obj != do.Obj {
+				w.violation("sem-site|"+b.Label, x.Pos(), "the permit of executor.s is acquired/released (through a wrapper) outside doCompile/asFile: the permit protocol is decided for those two functions only")
 			}
 			return true
 		})
 	}
 	w.floor("Acquire sites on executor.s", nAcq, 2)
 	w.floor("Release sites on executor.s", nRel, 2)
-
-	// task.release: `if !t.released { Release; t.released = true }`
-	relOK := false
-	if len(rel.Decl.Body.List) == 1 {
-		if ifs, ok := rel.Decl.Body.List[0].(*ast.IfStmt); ok && ifs.Else == nil {
-			if ue, ok := ifs.Cond.(*ast.UnaryExpr); ok && ue.Op == token.NOT && selField(info, ue.X) == released {
-				hasRel, hasSet := false, false
-				for _, st := range ifs.Body.List {
-					ast.Inspect(st, func(y ast.Node) bool {
-						if semCall(y, "Release") {
-							hasRel = true
-						}
-						return true
-					})
-					if as, ok := st.(*ast.AssignStmt); ok && len(as.Lhs) == 1 && selField(info, as.Lhs[0]) == released && render(as.Rhs[0]) == "true" {
-						hasSet = true
-					}
-				}
-				relOK = hasRel && hasSet
-			}
-		}
+	if len(relWrappers) == 0 {
+		w.info("release-wrapper|none", token.NoPos, "no release wrapper: every release is inline")
 	}
-	if relOK {
-		w.ok("release-idempotent", rel.Decl.Pos(), "(*task).release releases iff !released and then records released = true")
-	} else {
-		w.violation("release-idempotent", rel.Decl.Pos(), "(*task).release is not of the form `if !t.released { Release(1); t.released = true }`: double release panics, missing release leaks a permit")
-	}
+	_ = rel
 
 	// doCompile: Acquire failure fails the result and returns before `defer t.release()`
 	{
 		body := do.Decl.Body
-		isAcq := func(x ast.Node) bool { return semCall(x, "Acquire") }
+		isAcq := func(x ast.Node) bool {
+			if semCall(x, "Acquire") {
+				return true
+			}
+			_, is := isAcqWrapperCall(x)
+			return is
+		}
 		isDeferRel := func(x ast.Node) bool {
 			ds, ok := x.(*ast.DeferStmt)
 			if !ok {
 				return false
 			}
-			_, is := isCallTo(info, ds.Call, rel.Obj)
-			return is
+			return isRelWrapperCall(ds.Call)
 		}
 		nb, bad := mustPrecede(info, body, isAcq, isDeferRel)
 		if nb == 1 && len(bad) == 0 {
@@ -1075,11 +1259,22 @@ func reCompiler(w *World) {
 					if c, ok := ast.Unparen(as.Rhs[0]).(*ast.CallExpr); ok && semCall(c, "Acquire") {
 						return out.with("acq:" + render(as.Lhs[0])).without("held")
 					}
+					if c, ok := ast.Unparen(as.Rhs[0]).(*ast.CallExpr); ok {
+						if f, is := isAcqWrapperCall(c); is {
+							return out.with("acqw:" + render(as.Lhs[0]) + "|" + f.Name()).without("held")
+						}
+					}
 				}
+			}
+			if _, isDefer := n.(*ast.DeferStmt); isDefer {
+				return out
 			}
 			inspectPost(n, func(x ast.Node) {
 				if semCall(x, "Release") {
 					out = out.without("held")
+				}
+				if isRelWrapperCall(x) {
+					out = out.without("held").without("flag=false").with("flag=true")
 				}
 			})
 			return out
@@ -1089,6 +1284,35 @@ func reCompiler(w *World) {
 				s = s.without("acq:" + render(be.X))
 				if (be.Op == token.NEQ && !truth) || (be.Op == token.EQL && truth) {
 					return s.with("held")
+				}
+			}
+			if be, ok := leaf.(*ast.BinaryExpr); ok && isNilIdent(info, be.Y) {
+				for k := range s {
+					if !strings.HasPrefix(k, "acqw:"+render(be.X)+"|") {
+						continue
+					}
+					name := strings.TrimPrefix(k, "acqw:"+render(be.X)+"|")
+					var sum acqSummary
+					for f, sm := range acqWrappers {
+						if f.Name() == name {
+							sum = sm
+						}
+					}
+					s = s.without(k)
+					success := (be.Op == token.NEQ && !truth) || (be.Op == token.EQL && truth)
+					eff := sum.fail
+					if success {
+						s = s.with("held")
+						eff = sum.succ
+					}
+					switch eff {
+					case "true":
+						s = s.without("flag=false").with("flag=true")
+					case "false":
+						s = s.without("flag=true").with("flag=false")
+					case "?":
+						s = s.without("flag=true").without("flag=false")
+					}
 				}
 			}
 			return s
